@@ -80,7 +80,52 @@ fn gen_new_assets(r: &mut Rng, pool: &mantra_dex_std::pool_manager::PoolInfo) ->
     }).collect()
 }
 
+/// far outside the supported range: amplification up to u64::MAX (pool creation only requires amp != 0), balances
+/// from one unit to 10^37 with any skew, mostly 4 assets — the code must refuse or still return a converged D
+pub fn gen_pool_extreme(r: &mut Rng) -> mantra_dex_std::pool_manager::PoolInfo {
+    let mut p = gen_pool(r, true);
+    while p.assets.len() < 2 + r.below(3) as usize {
+        let d = DENOMS.iter().find(|d| !p.asset_denoms.iter().any(|x| x == *d)).unwrap().to_string();
+        p.asset_denoms.push(d.clone()); p.asset_decimals.push(p.asset_decimals[0]); p.assets.push(cosmwasm_std::coin(1, d));
+    }
+    let n = p.assets.len() as u64;
+    let amp: u64 = match r.below(9) {
+        0 => 1, 1 => 1_000_000, 2 => 90_000_000_000_000_000, 3 => u64::MAX / (n * 100), 4 => u64::MAX / (n * 100) + 1,
+        5 => 100_000_000_000_000_000, 6 => u64::MAX, 7 => u64::MAX / n, _ => r.range(1, 1_000_000),
+    };
+    p.pool_type = PoolType::StableSwap { amp };
+    let same = r.chance(1, 2);
+    let d0 = [6u8, 18, 6, 12][r.below(4) as usize];
+    for d in p.asset_decimals.iter_mut() { *d = if same { d0 } else { [6u8, 18, 8, 12][r.below(4) as usize] }; }
+    let shape = r.below(4);
+    for (i, a) in p.assets.iter_mut().enumerate() {
+        let (k1, k2, k3, k4) = (26 + r.below(12) as u32, 20 + r.below(12) as u32, r.below(8) as u32, r.below(38) as u32);
+        let v = match shape {
+            0 => if i == 0 { amount_mag(r, k1) } else { 1 + r.below(1000) as u128 },   // one huge, dust elsewhere
+            1 => amount_mag(r, k1),                                                  // all huge
+            2 => if i % 2 == 0 { amount_mag(r, k2) } else { amount_mag(r, k3) },
+            _ => amount_mag(r, k4),
+        };
+        a.amount = Uint128::new(v);
+    }
+    p
+}
+
 pub fn gen_line(r: &mut Rng) -> String {
+    if r.chance(1, 8) {
+        let p = gen_pool_extreme(r);
+        let amp = match p.pool_type { PoolType::StableSwap { amp } => amp, _ => 1 };
+        return match r.below(3) {
+            0 => format!("computed {} {}", amp, coins_str(&p.assets)),
+            1 => format!("computedpi {} {}", pool_str(&p), coins_str(&p.assets)),
+            _ => {
+                // first deposit of exactly these balances
+                let mut q = p.clone();
+                for a in q.assets.iter_mut() { a.amount = Uint128::zero(); }
+                format!("lpmint {} 0 {}", pool_str(&q), coins_str(&p.assets))
+            }
+        };
+    }
     match r.below(10) {
         0 | 1 => {
             let p = gen_pool(r, true);
@@ -124,11 +169,55 @@ pub fn gen_line(r: &mut Rng) -> String {
     }
 }
 
+/// C19: a D the code returned must be a (near-)fixpoint of its own iteration, whatever the inputs
+fn monitors(line: &str, res: &str, o: &mut Out) {
+    let Some(d) = res.strip_prefix("ok ") else { return };
+    if d == "none" || d.parse::<cosmwasm_std::Uint512>().is_err() { return; }
+    let mut t = Toks::new(line);
+    match t.s() {
+        "computed" => {
+            let amp = t.u64();
+            let coins = t.coins();
+            let xs: Vec<String> = coins.iter().map(|c| c.amount.to_string()).collect();
+            o.line(&format!("mon_d_conv {} {} {} {}", amp, xs.len(), xs.join(" "), d), "ok");
+        }
+        "computedpi" => {
+            let pool = t.pool();
+            let coins = t.coins();
+            let amp = match pool.pool_type { PoolType::StableSwap { amp } => amp, _ => 1 };
+            let maxd = *pool.asset_decimals.iter().max().unwrap_or(&0) as u32;
+            let mut xs = vec![];
+            for c in coins.iter() {
+                let Some(i) = pool.asset_denoms.iter().position(|x| *x == c.denom) else { return };
+                let k = maxd - pool.asset_decimals[i] as u32;
+                xs.push((cosmwasm_std::Uint512::from(c.amount) * cosmwasm_std::Uint512::from(10u128).pow(k)).to_string());
+            }
+            o.line(&format!("mon_d_conv {} {} {} {}", amp, xs.len(), xs.join(" "), d), "ok");
+        }
+        _ => {}
+    }
+}
+
 pub fn run(seed: u64, cases: u64, replay: Option<&str>, o: &mut Out) {
     if let Some(p) = replay {
         for l in super::replay_lines(p) {
+            if l.starts_with("mon_d_conv ") {
+                // a monitor line replays by recomputing D for its balances on the real code
+                let mut t = Toks::new(&l);
+                t.s();
+                let amp = t.u64();
+                let n = t.u64() as usize;
+                let xs: Vec<Uint128> = (0..n).map(|_| Uint128::new(t.u128())).collect();
+                let r = guarded(|| Ok(helpers::verif_api::calculate_d_core(&amp, &xs, Uint128::new(n as u128)).map(|d| d.to_string())));
+                if let Ok(Some(d)) = r {
+                    o.line(&format!("mon_d_conv {} {} {} {}", amp, n, xs.iter().map(|x| x.to_string()).collect::<Vec<_>>().join(" "), d), "ok");
+                }
+                continue;
+            }
+            if l.starts_with("mon_") { continue; }
             let res = exec_line(&l);
             o.line(&l, &res);
+            monitors(&l, &res, o);
         }
         return;
     }
@@ -137,5 +226,6 @@ pub fn run(seed: u64, cases: u64, replay: Option<&str>, o: &mut Out) {
         let line = gen_line(&mut r);
         let res = exec_line(&line);
         o.line(&line, &res);
+        monitors(&line, &res, o);
     }
 }
